@@ -68,7 +68,7 @@ def _reset_obs(ck: Check, repo: Repo, worker: Fn) -> None:
     step_ids = _branch_nodes(cfg, worker, "step")
     reset_ids = _branch_nodes(cfg, worker, "reset")
     writes = [c for c in calls_in(worker.node) if call_name(c) == "write_to_shared_memory"]
-    ck.floor("C12.1", len(writes), 2, "write_to_shared_memory calls in the worker")
+    ck.floor("C12.1", len(writes), 2, "write_to_shared_memory calls in the worker", fn=worker)
     resets_in_step = [c for c in calls_in(worker.node) if dotted(c.func) == "env.reset" and cfg.node_of(c) is not None and cfg.node_of(c).id in step_ids]
     ck.ob("C12.1", worker, resets_in_step[0] if resets_in_step else worker.node, len(resets_in_step) >= 1,
           "the step branch resets the sub-environment when its episode is over", construct="env.reset() in step branch")
@@ -371,7 +371,7 @@ def _reset_condition(ck: Check, repo: Repo, worker: Fn) -> None:
 def _ordering(ck: Check, repo: Repo, worker: Fn) -> None:
     st = repo.fn(PV, "PettingZooVecEnv.step")
     apps = [c for c in calls_in(st.node) if last_attr(c) == "append" and isinstance(c.func.value, ast.Subscript)]
-    ck.floor("C12.5", len(apps), 1, "per-environment append in PettingZooVecEnv.step")
+    ck.floor("C12.5", len(apps), 1, "per-environment append in PettingZooVecEnv.step", fn=st)
     agent_loops = [n for n in ast.walk(st.node) if isinstance(n, ast.For) and dotted(n.iter) == "self.agents"]
     env_loops = [n for n in ast.walk(st.node) if isinstance(n, ast.For) and isinstance(n.iter, ast.Call) and call_name(n.iter) == "enumerate"]
     ok = len(agent_loops) == 1 and len(env_loops) == 1 and any(x is agent_loops[0] for x in ast.walk(env_loops[0]))
@@ -471,7 +471,7 @@ def _slices(ck: Check, repo: Repo) -> None:
     cfg = CFG(wf.node)
     tb = TermBuilder(repo, wf, cfg=cfg, depth=0)
     copies = [c for c in calls_in(wf.node) if call_name(c) == "np.copyto"]
-    ck.floor("C12.6", len(copies), 3, "np.copyto sites in write_to_shared_memory")
+    ck.floor("C12.6", len(copies), 3, "np.copyto sites in write_to_shared_memory", fn=wf)
     for c in copies:
         n = cfg.node_of(c)
         dst = c.args[0]
